@@ -345,6 +345,16 @@ class Lib:
             raise EngineError("loop_it(%d) used outside that loop" % k)
         return v
 
+    def sf_seq_mean(self, ex, node, st):
+        """Arithmetic mean of a numeric sequence (same partial-sum function as numpy's mean on that object)."""
+        s = ex.as_seq(ex.eval(node.args[0], st), st)
+        saved = ex.checking
+        ex.checking = False
+        try:
+            return self.mean_of(ex, st, s, node)
+        finally:
+            ex.checking = saved
+
     def sf_cut(self, ex, node, st):
         """Ghost assertion: proved here (obligation), then available as a hypothesis."""
         saved = ex.checking
